@@ -1,0 +1,7 @@
+//go:build verif
+
+package node
+
+// VerifTick runs one poll tick (what Poll does every time its ticker fires), so that a test
+// harness can drive the node's own loop body message batch by message batch.
+func (s *BaseNodeService) VerifTick() error { return s.tick() }
